@@ -93,11 +93,16 @@ SENSITIVITY = {
     "r15b": ("seeded/r15b/patch.diff", "C17", ["result-mismatch"], "C: 128-slot OnceLock memo for axes >= 64 knots; get() then get_or_init() without re-checking the key"),
     "r15c": ("seeded/r15c/patch.diff", "C18", ["build-invariant", "build-invoked-on-invalid-input"], "A: builder decision table with a tie made of -0.0 and +0.0"),
     "r15d": ("seeded/r15d/patch.diff", "C18", ["query-element-not-delivered", "error-swallowed", "wrong-target", "concurrent-operation-affected"], "A: a nested (re-entrant) call whose strategy invocation fails raises a thread-local stop flag that ends the outer batch"),
+    "r16a": ("seeded/r16a/patch.diff", "C17", ["result-mismatch"], "C / B: one-entry cache of the packed end piece of an extrapolating spline, ensure-then-use with two lock acquisitions"),
+    "r16b": ("seeded/r16b/patch.diff", "C17", ["result-mismatch"], "C / B: Bilinear scratch-row pool whose lease is a load followed by an unchecked fetch_or"),
+    "r16d": ("seeded/r16d/patch.diff", "C18", ["callback-invariant"], "A: range accessors and get_index_left_of run on as_slice_memory_order(): wrong for a stride -1 axis view"),
     "M16": ("mutants/M16.diff", "C17", ["answers-differ-between-processes", "process-history-dependence"], "A: evaluation order picked once per process from the hasher's random seed"),
 }
 # seeded/r7d is kept but not listed: its author reads C18 as forbidding one-point axes for strategies
 # with declared minimum <= 1; the statement's parenthesis does not (see seeded/r7d/meta.json, DESIGN 14.3)
-_NOT_FLAGGED = {"r7d": "seeded/r7d/patch.diff"}
+# seeded/r16c likewise: it needs a strategy that leaves lanes of its target unwritten (or reads the target's
+# initial contents); the statement promises the target's shape, not its initial contents (seeded/r16c/meta.json)
+_NOT_FLAGGED = {"r7d": "seeded/r7d/patch.diff", "r16c": "seeded/r16c/patch.diff"}
 
 BENIGN = {
     "B1": ("mutants/B1.diff", "a correct mutex-protected lookup cache"),
